@@ -71,11 +71,27 @@ func (x *Exec) decimalDigits(abs *Term, maxDigits int) []*Term {
 	return ds
 }
 
+type stubKey struct {
+	t    *Term
+	verb byte
+}
+
+// itoa / formatFloat are functions: the same argument yields the same text within a path.
 func (x *Exec) itoa(v *Term) strVal {
-	tb := x.tb
 	if v.op == OConst {
 		return strVal{s: strconv.FormatInt(v.sval(), 10)}
 	}
+	k := stubKey{v, 'd'}
+	if r, ok := x.stubCache[k]; ok {
+		return r
+	}
+	r := x.itoa1(v)
+	x.stubCache[k] = r
+	return r
+}
+
+func (x *Exec) itoa1(v *Term) strVal {
+	tb := x.tb
 	if x.branch(tb.Eq(v, tb.Const(64, 1<<63))) {
 		return strVal{s: "-9223372036854775808"}
 	}
@@ -123,10 +139,20 @@ func (x *Exec) pf(bs []*Term) *Term {
 }
 
 func (x *Exec) formatFloat(f *Term, verb byte) strVal {
-	tb := x.tb
 	if f.op == OConst {
 		return strVal{s: strconv.FormatFloat(f.f64(), verb, -1, 64)}
 	}
+	k := stubKey{f, verb}
+	if r, ok := x.stubCache[k]; ok {
+		return r
+	}
+	r := x.formatFloat1(f, verb)
+	x.stubCache[k] = r
+	return r
+}
+
+func (x *Exec) formatFloat1(f *Term, verb byte) strVal {
+	tb := x.tb
 	if x.branch(tb.fun(OFIsNaN, f)) {
 		return strVal{s: "NaN"}
 	}
